@@ -68,6 +68,9 @@ func C01(c *Case) *Result {
 		cfg.Jobs = min(cfg.Jobs, 4)
 		cfg.DecJobs = min(cfg.DecJobs, 4)
 	}
+	if g := Geometry(t, &cfg, &rec, c.Thorough()); g != "" {
+		res.Probes["geometry."+g]++
+	}
 	data := rec.Bytes()
 	hintValue(&cfg, len(data), t)
 	if c.Neutralise == "hint" {
@@ -161,6 +164,9 @@ func C04(c *Case) *Result {
 		cfg.BlockSize = min(cfg.BlockSize, 8192)
 	}
 	rec := GenDataRecipe(t, cfg.BlockSize, maxBlocks)
+	if g := Geometry(t, &cfg, &rec, c.Thorough()); g != "" {
+		res.Probes["geometry."+g]++
+	}
 	data := rec.Bytes()
 	hintValue(&cfg, len(data), t)
 	if c.Neutralise == "hint" {
@@ -189,6 +195,9 @@ func C04(c *Case) *Result {
 	for v := 0; v < nvar; v++ {
 		vc := cfg
 		vc.Jobs = jobsDraw(t, o.MaxJobs)
+		if res.Probes["geometry.manyblocks"] > 0 && t.Intn(2) == 0 {
+			vc.Jobs = []int{63, 64, 32, 2}[t.Intn(4)]
+		}
 		if expensiveEntropy(cfg) {
 			vc.Jobs = min(vc.Jobs, 2)
 		}
